@@ -139,6 +139,9 @@ def programs(draw):
                 for _ in range(pc):
                     v_v |= 1 << d.int(0, w - 1)
                 r_v = d.choice(all_targets)
+                if a_v % w and d.pct() < 60:
+                    # an unaligned word address and a value bit whose index shares a bit with it: a + i != a | i
+                    v_v |= 1 << (a_v % w)
             wf_pool.append((a_v, v_v, r_v))
             r_e = None if d.pct() < 30 else small_expr(d, r_v, labels, consts, w)
             stmts.append(['wflip', small_expr(d, a_v, labels, consts, w), ['n', v_v, d.choice(['hex', 'bin', 'dec'])], r_e])
